@@ -323,7 +323,7 @@ def clone_graph(n, memo):
 # ------------------------------------------------------------------ state
 
 class Frame:
-    __slots__ = ("fn", "locals", "bb", "dest", "ret_bb", "visits")
+    __slots__ = ("fn", "locals", "bb", "dest", "ret_bb", "visits", "cont", "stash")
 
     def __init__(self, fn):
         self.fn = fn
@@ -332,6 +332,20 @@ class Frame:
         self.dest = None
         self.ret_bb = None
         self.visits = {}
+        self.cont = None     # python continuation run when this frame returns (model-driven calls of closures)
+        self.stash = None    # nodes the continuation needs (cloned with the state)
+
+
+def clone_value(v, memo):
+    if isinstance(v, Node):
+        return clone_graph(v, memo)
+    if isinstance(v, list):
+        return [clone_value(x, memo) for x in v]
+    if isinstance(v, tuple):
+        return tuple(clone_value(x, memo) for x in v)
+    if isinstance(v, dict):
+        return {k: clone_value(x, memo) for k, x in v.items()}
+    return v
 
 
 class Event:
@@ -357,6 +371,7 @@ class State:
         self.trace = []
         self.assumptions = []   # environment contracts used (strings)
         self.extra = {}
+        self.heap = {}          # symbolic pointer name -> pointee node (interned lazily)
 
     def clone(self):
         memo = {}
@@ -370,11 +385,14 @@ class State:
             g.visits = dict(f.visits)
             g.locals = {k: clone_graph(v, memo) for k, v in f.locals.items()}
             g.dest = clone_graph(f.dest, memo)
+            g.cont = f.cont
+            g.stash = clone_value(f.stash, memo) if f.stash is not None else None
             s.frames.append(g)
         for e in self.trace:
             s.trace.append(Event(e.callee, e.norm, [clone_graph(a, memo) for a in e.args],
                                  clone_graph(e.ret, memo), e.site, e.depth, e.kind))
-        s.extra = {k: (clone_graph(v, memo) if isinstance(v, Node) else v) for k, v in self.extra.items()}
+        s.extra = {k: clone_value(v, memo) for k, v in self.extra.items()}
+        s.heap = {k: clone_graph(v, memo) for k, v in self.heap.items()}
         return s
 
 
@@ -499,6 +517,8 @@ class Engine:
         self.auto_inline_depth = 5
         self.inlined_fns = set()
         self._index = None
+        self.cur_state = None
+        self.view_heap = {}
         from . import models
         models.install(self)
 
@@ -534,6 +554,9 @@ class Engine:
 
     def resolve(self, norm, nargs):
         idx = self.index()
+        m = re.fullmatch(r"(?:\w+::)*<impl ([A-Za-z_]\w*)(?:<.*>)?>::(\w+)", norm)
+        if m:
+            norm = "%s::%s" % (m.group(1), m.group(2))
         cands = idx.get(norm)
         if cands is None and not norm.startswith("<"):
             # `module::func` / `Type::method` with a module prefix
@@ -615,11 +638,27 @@ class Engine:
         return v
 
     def deref(self, node, ty=None):
+        """Pointee of a pointer-like node. Lazily created pointees are interned per state by the pointer's
+        symbolic name, so every copy of the same symbolic pointer dereferences to the same object."""
         if node.target is None:
             if node.vec is not None:
                 return node.vec
-            node.target = node.child(".*", ty or strip_ref(node.ty))
+            heap = self.cur_state.heap if self.cur_state is not None else self.view_heap
+            key = (node.root, tuple(i.get_id() for i in node.idxs), node.path)
+            t = heap.get(key)
+            if t is None:
+                t = node.child(".*", ty or strip_ref(node.ty))
+                heap[key] = t
+            node.target = t
         return node.target
+
+    def focus(self, path_or_state):
+        """Navigate (deref) relative to the final state of a path; None = initial-state view."""
+        if path_or_state is None:
+            self.cur_state = None
+        else:
+            self.cur_state = getattr(path_or_state, "state", path_or_state)
+        return self
 
     def length(self, node):
         if node.length is None:
@@ -952,11 +991,15 @@ class Engine:
         holder = Node("args")
         holder.fields = dict(argnodes)
         st.extra["args"] = holder
+        self.cur_state = st
         if setup:
             setup(self, st, fr)
             for c in st.pc:
                 self.solver.add(c)
+        self.cur_state = st
         self._run(st)
+        self.cur_state = None
+        self.view_heap = {}
         return self.paths
 
     def _end(self, st, outcome, detail=None, ret=None, site=None):
@@ -989,6 +1032,7 @@ class Engine:
 
     def _run(self, st):
         while True:
+            self.cur_state = st
             frame = st.frames[-1]
             fn = frame.fn
             bb = frame.bb
@@ -1068,6 +1112,11 @@ class Engine:
                 return None
             st.frames.pop()
             caller = st.frames[-1]
+            if frame.cont is not None:
+                if self.record_inlined:
+                    st.trace.append(Event(frame.fn.name, "ret:" + short_name(frame.fn.name), [], copy_node(ret),
+                                          self.site(caller), len(st.frames), "inline-ret"))
+                return frame.cont(self, st, frame.stash, ret)
             if frame.dest is not None:
                 assign_node(frame.dest, ret)
             if self.record_inlined:
@@ -1184,6 +1233,58 @@ class Engine:
                                   self.site(frame), depth, "inline-enter"))
         st.frames.append(g)
         return True
+
+    def call_then(self, st, target, args, stash, cont, callee="<closure>"):
+        """Model-driven call: run `target` on `args`; when it returns, cont(eng, st, stash, ret) continues."""
+        if len(st.frames) > 60:
+            raise Unsupported("call depth")
+        g = Frame(target)
+        if len(args) != len(target.params):
+            raise Unsupported("arity mismatch calling %s" % target.name)
+        for (n, ty), a in zip(target.params, args):
+            if a.ty is None:
+                a.ty = ty
+            g.locals[n] = a
+        g.cont = cont
+        g.stash = stash
+        self.inlined_fns.add(target)
+        if self.record_inlined:
+            st.trace.append(Event(callee, "enter:" + short_name(target.name), [copy_node(a) for a in args], None,
+                                  self.site(st.frames[-1]), len(st.frames), "inline-enter"))
+        st.frames.append(g)
+        return True
+
+    def closure_body(self, clos_ty):
+        """MIR body of the closure whose type prints as `{closure@src/...}` (None if not in the dump)."""
+        if not clos_ty:
+            return None
+        m = re.search(r"\{closure@[^}]*\}", clos_ty)
+        if not m:
+            return None
+        key = m.group(0)
+        cache = self.__dict__.setdefault("_closures", {})
+        if key not in cache:
+            found = None
+            for name, fn in self.funcs.items():
+                if "{closure#" in name and fn.params and key in fn.params[0][1]:
+                    found = fn
+                    break
+            cache[key] = found
+        return cache[key]
+
+    def call_closure(self, st, clos, call_args, stash, cont):
+        """Invoke closure value `clos` (node whose .ty names the closure type) on call_args (list of nodes,
+        passed as the closure's parameters after the environment)."""
+        body = self.closure_body(clos.ty)
+        if body is None:
+            raise Unsupported("closure body not found for %r" % clos.ty)
+        p0 = body.params[0][1].strip()
+        if p0.startswith("&"):
+            env = mk_ref(clos, p0)
+        else:
+            env = clos
+        # rustc passes the arguments of Fn*/call as separate parameters _2, _3.. in closure bodies
+        return self.call_then(st, body, [env] + list(call_args), stash, cont, callee="closure " + (clos.ty or ""))
 
     def havoc(self, node, seen=None, top=True):
         """Forget everything reachable from `node` through pointers (contents may have been changed)."""
